@@ -1,4 +1,5 @@
 import ThruVerif.Model.Server
+import ThruVerif.Gen.Shapes
 import Mathlib.Data.List.Nodup
 /-!
 # C14 — Join codes live exactly as long as their session; server limits hold
@@ -918,5 +919,34 @@ example :
 example : Reachable demoCfg 0 (rrun (init demoCfg 0) [.create 1 [5], .lookup 5 2, .acquire, .register ⟨1, 1, 1, .receiver⟩]) := ⟨_, rfl⟩
 
 example : ((Bucket.new 1000 1 3).runAllow 1000 [0, 0, 0, 0, 500, 500, 0]).2 = 4 := by decide
+
+/-! ## the decision points of the source, as regenerated on this run (xlate, `Gen/Shapes.lean`)
+
+The model's guards were transcribed from these expressions; a change of any of them in /repo changes the generated
+text and breaks this theorem (the check then searches for a concrete failing input with the histories and bursts). -/
+
+open TV.Gen.Shapes in
+theorem C14_source_shapes :
+    -- `Store.CreateLimited`: test and insertion under one lock; `Store.create`'s guard
+    store_create_limit = ["max > 0 && len(s.sessions) >= max"] ∧
+    -- lazy expiry in `GetByJoinCode`; `Sess.expired`
+    store_expiry_test = ["!session.ExpiresAt.IsZero() && time.Now().After(session.ExpiresAt)"] ∧
+    -- /session: the read-only pre-test and the deciding answer of CreateLimited
+    handler_session_limit = ["limits.maxSessions > 0 && store.Count() >= limits.maxSessions", "!created"] ∧
+    -- `mrCheck`
+    handler_post_maxrecv = ["maxReceiversRaw != \"\" ; limits.maxReceiversPerSender > 0 && reqMax > limits.maxReceiversPerSender"] ∧
+    handler_ws_maxrecv = ["role == \"sender\" && maxReceiversRaw != \"\" ; limits.maxReceiversPerSender > 0 && reqMax > limits.maxReceiversPerSender"] ∧
+    -- receiver admission: before the upgrade and again under `receiverAdmitMu`; `rstep (.register m)`'s guard
+    handler_receiver_limit =
+      ["limits.maxReceiversPerSender > 0 && role == \"receiver\" ; countReceivers(hub.List(sess.ID)) >= limits.maxReceiversPerSender",
+       "limits.maxReceiversPerSender > 0 && role == \"receiver\" ; countReceivers(hub.List(sess.ID)) >= limits.maxReceiversPerSender"] ∧
+    -- connection slots: `wsAcquire` / `rstep .acquire`
+    handler_conn_limit = ["limits.maxWSConnections > 0 ; !wsConnLimiter.Acquire()"] ∧
+    connlimiter_acquire = ["l.limit > 0 && l.inUse >= l.limit"] ∧
+    -- message size and rate: `msgAccepted`, `Bucket.allow`
+    handler_msg_size = ["maxMessageSize > 0 && len(message) > maxMessageSize"] ∧
+    handler_msg_rate = ["limits.msgRatePerSec > 0 && !msgLimiter.Allow()"] ∧
+    bucket_allow = ["b.tokens < 1"] ∧
+    handler_lookup_args = ["joinCode"] := by decide
 
 end TV.C14
